@@ -69,6 +69,7 @@ IGNORE = shutil.ignore_patterns(".git", "__pycache__", "*.so", "*.o", "*.mod", "
                                 ".lock_acquisition.lock", "*.egg-info", ".pytest_cache", "build", "dist")
 
 _STATE = {"base": None, "status": None}
+_CRASH_SIGNALS = (-4, -6, -7, -8, -11)      # SIGILL, SIGABRT, SIGBUS, SIGFPE, SIGSEGV (not our own SIGALRM / SIGKILL)
 
 
 # ------------------------------------------------------------------------------------------------
@@ -316,6 +317,7 @@ def _spawn(job, env_extra=None, pythonpath=None, preload=False, san_prefix=None)
     job = dict(job)
     job["out"] = os.path.join(work, tag + ".out")
     job["verif"] = VERIF
+    job.setdefault("limit", 1000)
     jobf = os.path.join(work, tag + ".job")
     with open(jobf, "wb") as f:
         pickle.dump(job, f, protocol=4)
@@ -412,7 +414,25 @@ def _same_record(a, b):
     return True
 
 
-def _ref_run(refmods, calls, events):
+class RefTimeout(BaseException):
+    """raised by SIGALRM inside the interpreted reference (BaseException: must pass `except Exception`)"""
+
+
+def _ref_run(refmods, calls, events, limit=240):
+    import signal
+
+    def on_alarm(signum, frame):
+        raise RefTimeout()
+    old = signal.signal(signal.SIGALRM, on_alarm)
+    signal.alarm(int(limit))
+    try:
+        return _ref_run_inner(refmods, calls, events)
+    finally:
+        signal.alarm(0)
+        signal.signal(signal.SIGALRM, old)
+
+
+def _ref_run_inner(refmods, calls, events):
     recs, alts = [], {}
     for i, call in enumerate(calls):
         fn = getattr(refmods[call["mod"]], call["fn"])
@@ -532,6 +552,10 @@ def _diff_case(case):
     try:
         refmods = load_ref(b["tree"])
         ref, alts = _ref_run(refmods, calls, events)
+    except RefTimeout:
+        h["proc"].kill()
+        _collect(h, 5)
+        return result(INCO, what="interpreted reference did not finish the %s stream in time (non-terminating kernel call generated?)" % case["family"])
     except BaseException:
         h["proc"].kill()
         raise
@@ -566,6 +590,15 @@ def _diff_case(case):
                              _strip_marks(res["stderr"])[-300:]),
                           witness=_witness(case, calls, i, kind, {"rc": res["rc"], "stderr": _strip_marks(res["stderr"])[-1500:]}))
         return result(INCO, what="both implementations fail on call %d (%s.%s): generator bug" % (i, c["mod"], c["fn"]))
+    if recs["bye"] is None and not res["timed_out"] and res["rc"] in _CRASH_SIGNALS and all(r["exc"] is None for r in ref):
+        # the interpreter died (SIGSEGV/SIGABRT/...) between kernel calls after the compiled kernels ran a stream the
+        # interpreted source executes cleanly: memory corrupted by an earlier call
+        return result(VIOL, cls=cls, events=events, n_eval=max(ncmp, 1), extra=extra,
+                      key="C19:diff:%s:%s:interpreter-killed-by-signal" % (lang, case["family"]),
+                      what="child interpreter running the compiled (%s) kernels on the %s stream was killed by signal %d outside a kernel call "
+                           "(memory corrupted by an earlier call?); the interpreted source runs the same stream cleanly: %s"
+                      % (lang, case["family"], -res["rc"], _strip_marks(res["stderr"])[-300:]),
+                      witness={"case": case, "rc": res["rc"], "calls_done": len(done), "stderr": _strip_marks(res["stderr"])[-1500:]})
     if res["timed_out"] or recs["bye"] is None:
         return result(INCO, events=events, what="compiled child ended early outside a kernel (rc=%s, timeout=%s): %s"
                       % (res["rc"], res["timed_out"], _strip_marks(res["stderr"])[-300:]))
@@ -769,6 +802,10 @@ def _copy_case(case):
     try:
         refmods = load_ref(tree)
         ref, alts = _ref_run(refmods, calls, events)
+    except RefTimeout:
+        h["proc"].kill()
+        _collect(h, 5)
+        return result(INCO, what="interpreted reference did not finish the %s stream in time (non-terminating kernel call generated?)" % case["family"])
     except BaseException:
         h["proc"].kill()
         raise
